@@ -45,8 +45,9 @@ def run(tier):
             chk.violation("sat-answer", f"{bad[0]} (corpus {f.name})", {"script": txt, "lean_verdict": bad[0]}, match_key=key)
     # (a) engine traces: every sat answer must be accepted by the machine
     n = 160 if tier == "quick" else 3000
-    cases, results = engine.run_corpus(n, chk.seed, logics=LOGICS, certify=False, timeout=10 if tier == "quick" else 30,
-                                       big=True)
+    cases = [engine.make_case(i, chk.seed, LOGICS, engine.OPTION_VECTORS, big=True) for i in range(n)]
+    cases += [engine.make_steered_case(i, chk.seed) for i in range(120 if tier == "quick" else 3000)]
+    results = engine.run_cases(cases, certify=False, timeout=10 if tier == "quick" else 30)
     sat_seen = timeouts = 0
     for c, r in zip(cases, results):
         if r["rc"] == "timeout":
@@ -55,6 +56,12 @@ def run(tier):
         ns = r["answers"].count("sat")
         sat_seen += ns
         bad = [v for v in r["verdicts"] if "sat-model" in v]
+        wrong = [w for w in engine.wrong_answers(c, r) if w[1] == "sat"]
+        if wrong:
+            chk.obligation(False)
+            chk.violation("wrong-answer", f"check #{wrong[0][0]} answers sat, the assertions are unsatisfiable (exhaustive "
+                          "enumeration of the propositional history)",
+                          {"script": c["script"], "impl_answers": r["answers"], "expected": c["expected"]})
         chk.case(key=("trace", c["idx"], ns), nontrivial=ns > 0,
                  sample={"logic": c["logic"], "options": c["options"], "answers": r["answers"]} if ns else None)
         chk.cov["traces_validated_against_impl"] += len(r["verdicts"])
